@@ -28,6 +28,7 @@ type lstats struct {
 	unknownDepth    int // -1 none
 	ncmd, nunknown  int
 	shadowed, total int
+	ncmdSeen        int
 }
 
 func genSteps(g *sgen.G, t *rapid.T, depth int, allowUnknown bool, st *lstats, penvNames []string) pipeline.Steps {
@@ -178,6 +179,18 @@ func TestPropSignSteps(t *testing.T) {
 		if rapid.IntRange(0, 3).Draw(t, "slowkey") > 0 {
 			kp = pool[rapid.IntRange(0, 1).Draw(t, "fastkey")] // mostly EdDSA: cheap
 		}
+		// some steps arrive already carrying a (stale / foreign) signature: a pipeline uploaded again
+		presigned := 0
+		walk(steps, func(cs *pipeline.CommandStep) {
+			if rapid.IntRange(0, 3).Draw(t, "presigned") == 0 {
+				presigned++
+				cs.Signature = &pipeline.Signature{
+					Algorithm:    rapid.SampledFrom([]string{kp.Alg, kp.Alg, "EdDSA", "ES512", "none"}).Draw(t, "oldalg"),
+					SignedFields: rapid.SampledFrom([][]string{{"command", "env", "matrix", "plugins", "repository_url"}, {"command"}, nil}).Draw(t, "oldfields"),
+					Value:        rapid.SampledFrom([]string{"stale..signature", "", "eyJhbGciOiJFZERTQSJ9..AAAA"}).Draw(t, "oldvalue"),
+				}
+			}
+		})
 		repo := g.RepoURL()
 
 		before := canon.Steps(steps, canon.Mode{NoSignature: true})
@@ -209,6 +222,46 @@ func TestPropSignSteps(t *testing.T) {
 			if err != nil {
 				t.Fatalf("SignSteps failed on a list without unknown steps: %v\nsteps: %s", err, gt.Show(before))
 			}
+			checkSigned(t, ctx, steps, before, kp, penv, repo, st)
+			// a multi-step sequence: the pipeline env changes and the key is rotated (same kind, same kid),
+			// then the same list is signed again - every statement about the result holds again
+			if rapid.Bool().Draw(t, "resign") {
+				penv2 := sgen.CopyStrMap(penv)
+				if penv2 == nil {
+					penv2 = map[string]string{}
+				}
+				penv2["ADDED_LATER"] = "v"
+				if len(pnames) > 0 && rapid.Bool().Draw(t, "dropvar") {
+					delete(penv2, pnames[0])
+				}
+				kp2 := keys.Other(kp)
+				if err := signature.SignSteps(ctx, steps, kp2.Priv, repo, signature.WithEnv(penv2)); err != nil {
+					t.Fatalf("signing the same list again failed: %v", err)
+				}
+				st.ncmdSeen = 0
+				checkSigned(t, ctx, steps, before, kp2, penv2, repo, st)
+				rec.Class("signed-twice")
+			}
+		}
+		if presigned > 0 {
+			rec.Class("pre-existing-signatures")
+		}
+		nt := st.maxCmdDepth >= 2 || st.unknownDepth >= 1
+		cls := []string{"key=" + kp.Kind, fmt.Sprintf("unknown=%v", st.nunknown > 0), fmt.Sprintf("cmddepth=%d", st.maxCmdDepth)}
+		if st.shadowed > 0 {
+			cls = append(cls, "shadowed-var")
+		}
+		rec.Case(ev.Hash(gt.Show(before), penv, repo, kp.Name), nt, cls...)
+		rec.MaybeSample(nt, func() any {
+			return map[string]any{"steps": gt.Show(before), "pipeline_env": penv, "key": kp.Kind, "unknown_steps": st.nunknown, "signed": err == nil}
+		})
+	})
+}
+
+// checkSigned asserts everything the statement says about a successfully signed list.
+func checkSigned(t *rapid.T, ctx context.Context, steps pipeline.Steps, before *gt.Node, kp keys.Pair, penv map[string]string, repo string, st *lstats) {
+	{
+		{
 			after := canon.Steps(steps, canon.Mode{NoSignature: true})
 			if d := gt.Diff(before, after, gt.Opt{}); d != "" {
 				t.Fatalf("SignSteps changed something other than signatures: %s", d)
@@ -250,16 +303,7 @@ func TestPropSignSteps(t *testing.T) {
 				t.Fatalf("walk found %d command steps, generator made %d", count, st.ncmd)
 			}
 		}
-		nt := st.maxCmdDepth >= 2 || st.unknownDepth >= 1
-		cls := []string{"key=" + kp.Kind, fmt.Sprintf("unknown=%v", st.nunknown > 0), fmt.Sprintf("cmddepth=%d", st.maxCmdDepth)}
-		if st.shadowed > 0 {
-			cls = append(cls, "shadowed-var")
-		}
-		rec.Case(ev.Hash(gt.Show(before), penv, repo, kp.Name), nt, cls...)
-		rec.MaybeSample(nt, func() any {
-			return map[string]any{"steps": gt.Show(before), "pipeline_env": penv, "key": kp.Kind, "unknown_steps": st.nunknown, "signed": err == nil}
-		})
-	})
+	}
 }
 
 // Parsed route: a parsed document (groups, scalars, unknown step inside the deepest group built from structs).
